@@ -1785,7 +1785,12 @@ impl Term<Name> {
                         // So it costs more size to have them hoisted
                         Term::Delay(e) if matches!(e.as_ref(), Term::Error) => true,
                         // If it wraps a builtin with consts or arguments passed in then inline
-                        Term::Lambda { .. } => arg_term.is_a_builtin_wrapper(),
+                        // (a `__no_inline__` marker around something that is not a lambda is an
+                        // annotated expression, not a function value: it may still throw)
+                        Term::Lambda { .. } => {
+                            matches!(arg_term.pierce_no_inlines_ref(), Term::Lambda { .. })
+                                && arg_term.is_a_builtin_wrapper()
+                        }
                         // Inline smaller terms too
                         Term::Constant(_) | Term::Var(_) | Term::Builtin(_) => true,
 
